@@ -46,3 +46,20 @@ def sign(rings, secidx, secx, ks, forged, m):
         s[i][secidx[i]] = (ks[i] - e * secx[i]) % n
         if s[i][secidx[i]] == 0: return None
     return e0, s
+
+def craft_infinity(e0, s, pubs, secs, rsizes, m, ring, pos):
+    """verification INPUT (not a valid signature) whose chain value R_{ring,pos} = s*G + e*P is the point at infinity:
+    s[ring][pos] := -e_{ring,pos} * secs[ring][pos] where e is what the verifier will have at that position.  s: nested list
+    (copied), pubs / secs nested like s.  returns the new nested list, or None if a hash value is out of range on the way."""
+    s = [list(r) for r in s]
+    e = I(bhash(m, e0, ring, 0))
+    for j in range(pos):
+        if not 0 < e < n or not 0 < s[ring][j] < n: return None
+        R = add(mul(e, pubs[ring][j]), mulG(s[ring][j]))
+        if R is None: return None
+        e = I(bhash(m, ser33(R), ring, j + 1))
+    if not 0 < e < n: return None
+    v = (-e * secs[ring][pos]) % n
+    if v == 0: return None
+    s[ring][pos] = v
+    return s
